@@ -14,11 +14,11 @@ VARIABLES n, oc, K, cancelAt,            \* scenario
           eclosed,
           mpc, errs, result,
           cstat,                        \* per-target conn status
-          startedLive, lastStartIdx, orderOK, earlyFeeds, lateCancelledOK, lastFailSeen, lastFeed
+          startedLive, startAt, orderOK, earlyFeeds, lateCancelledOK, lastFailSeen, lastFeed
 
 scen == <<n, oc, K, cancelAt>>
 vars == <<n, oc, K, cancelAt, now, pcancel, done, fpc, fi, ftimer, tclosed, wpc, wt, wstart, wlive, doneAt, eclosed, mpc, errs, result, cstat,
-          startedLive, lastStartIdx, orderOK, earlyFeeds, lateCancelledOK, lastFailSeen, lastFeed>>
+          startedLive, startAt, orderOK, earlyFeeds, lateCancelledOK, lastFailSeen, lastFeed>>
 
 W == 1..MaxK
 Workers == 1..K
@@ -31,7 +31,7 @@ InitRest ==
   /\ eclosed = FALSE
   /\ mpc = "select" /\ errs = 0 /\ result = "none"
   /\ cstat = [i \in 1..n |-> "none"]
-  /\ startedLive = 0 /\ lastStartIdx = 0 /\ orderOK = TRUE /\ earlyFeeds = 0 /\ lateCancelledOK = TRUE
+  /\ startedLive = 0 /\ startAt = [i \in 1..MaxN |-> -1] /\ orderOK = TRUE /\ earlyFeeds = 0 /\ lateCancelledOK = TRUE
   /\ lastFailSeen = FALSE /\ lastFeed = -1
 
 Init ==
@@ -44,7 +44,7 @@ Init ==
 UNCH_SCEN == UNCHANGED scen /\ UNCHANGED <<wlive, doneAt>>
 \* for the steps that end the Dial context: remember the instant
 UNCH_SCEN_D == UNCHANGED scen /\ UNCHANGED wlive /\ doneAt' = (IF done THEN doneAt ELSE now)
-UNCH_MON == UNCHANGED <<startedLive, lastStartIdx, orderOK, earlyFeeds, lateCancelledOK, lastFailSeen, lastFeed>>
+UNCH_MON == UNCHANGED <<startedLive, startAt, orderOK, earlyFeeds, lateCancelledOK, lastFailSeen, lastFeed>>
 
 \* ---------------- feeder ----------------
 FeederNext ==
@@ -65,7 +65,7 @@ FeedSend(w) ==
   /\ fi' = fi + 1 /\ fpc' = "next"
   /\ earlyFeeds' = IF ~done /\ lastFeed >= 0 /\ now < lastFeed + Delay THEN earlyFeeds + 1 ELSE earlyFeeds
   /\ lastFeed' = now
-  /\ UNCHANGED <<startedLive, lastStartIdx, orderOK, lateCancelledOK, lastFailSeen>>
+  /\ UNCHANGED <<startedLive, startAt, orderOK, lateCancelledOK, lastFailSeen>>
   /\ UNCHANGED <<now, pcancel, done, ftimer, tclosed, wstart, eclosed, mpc, errs, result, cstat>> /\ UNCH_SCEN
 
 \* ---------------- workers ----------------
@@ -89,8 +89,11 @@ WorkerStart(w) ==
      IF oc[i].kind = "rerr"
      THEN /\ wpc' = [wpc EXCEPT ![w] = "senderr"] /\ UNCHANGED wstart /\ UNCH_MON
      ELSE /\ wpc' = [wpc EXCEPT ![w] = "dialing"] /\ wstart' = [wstart EXCEPT ![w] = now]
-          /\ orderOK' = (orderOK /\ (done \/ i > lastStartIdx))
-          /\ lastStartIdx' = IF i > lastStartIdx THEN i ELSE lastStartIdx
+          \* target order: no later target may have been started at an earlier instant. (Two targets handed out at the same
+          \* instant - the second one released by an earlier failure - reach their workers in order, but which worker calls
+          \* its DialFunc first is a scheduling matter and is not constrained.)
+          /\ orderOK' = (orderOK /\ (done \/ \A j \in (i+1)..MaxN : startAt[j] \in {-1, now}))
+          /\ startAt' = [startAt EXCEPT ![i] = now]
           /\ UNCHANGED <<earlyFeeds, lastFeed, lastFailSeen>>
           /\ lateCancelledOK' = (lateCancelledOK /\ (mpc = "ret" => done))
           /\ startedLive' = startedLive
